@@ -55,4 +55,12 @@ def s3okAlts (br : Nat → Bool) : List Expr → Bool → Bool
   | e :: es, hard => s3ok br e hard && s3okAlts br es hard
 end
 
+/-- decidable condition on a program: every `Delegate` owns groups inside the ordinary slots and its
+    expressions mention only ordinary slots -/
+def progDelegOK (nS : Nat) (prog : List Insn) : Bool :=
+  prog.all fun i =>
+    match i with
+    | .delegate es sg eg => decide (eg * 2 ≤ nS) && decide (sg ≤ eg) && slotsBelowAll nS es
+    | _ => true
+
 end Fancy
